@@ -34,7 +34,6 @@ def marshal(
     return unmarshalled
 
 
-@compat.cache
 def marshaller(
     t: type[T] | refs.ForwardRef | compat.TypeAliasType | str,
 ) -> routines.AbstractMarshaller[T]:
@@ -45,6 +44,17 @@ def marshaller(
             The type annotation to generate a marshaller for. Can be a type, type alias,
             [`typing.ForwardRef`][], or string reference.
     """
+    # A string reference means something different to each calling module:
+    #   resolve it on behalf of the caller *before* looking for a memoized routine.
+    if isinstance(t, str):
+        t = refs.forwardref(t)
+    return _marshaller(t)
+
+
+@compat.cache
+def _marshaller(
+    t: type[T] | refs.ForwardRef | compat.TypeAliasType,
+) -> routines.AbstractMarshaller[T]:
     nodes = graph.static_order(t)
     context: ctx.TypeContext[routines.AbstractMarshaller] = ctx.TypeContext()
     if not nodes:
